@@ -10,6 +10,7 @@
                                         processed (TRUE = SUBSCRIBE, FALSE = UNSUBSCRIBE / disconnect / closed stream)
      step    a, mem, lp, nh             AFTER stimulus + settle: topics[T], Topic.ListPeers(), #registered handlers
      newh h / cancelh h                 EventHandler() returned / Cancel() returned
+     newhcall h                         EventHandler() is about to be called concurrently with a stimulus (its newh line follows)
      call    id, c, h, ctx, mode        a consumer is about to call NextPeerEvent (mode step: parks in ctx.Done())
      go id                              a parked call is released into the select
      cancel ctx                         a context is cancelled
@@ -45,6 +46,7 @@ O == INSTANCE EventLogOps WITH Rearm <- TRUE, CoalesceOnEqual <- FALSE, SignalOn
 
 VARIABLES members,     \* model membership (derived from the stimuli)
           created, live,
+          creating,    \* handlers whose EventHandler() call is in flight (between a newhcall and its newh line)
           log,         \* h |-> log (EventLogOps)
           returned,    \* h |-> events the REAL handler returned, in linearisation order
           applied,     \* h |-> Apply(returned[h]), kept incrementally (long scenarios)
@@ -57,7 +59,7 @@ VARIABLES members,     \* model membership (derived from the stimuli)
           inflight,    \* subscription options announced by the last stim line and not yet processed
           viol, scn, base, l
 
-tvars == <<members, created, live, log, returned, applied, lastT, altBad, empt, calls, cctx, inflight, viol, scn, base, l>>
+tvars == <<members, created, live, creating, log, returned, applied, lastT, altBad, empt, calls, cctx, inflight, viol, scn, base, l>>
 E == Trace[l]
 More == l <= Len(Trace)
 Adv == l' = l + 1
@@ -67,12 +69,12 @@ Flying == \E i \in DOMAIN inflight : inflight[i].seq # <<>>
 Flag(V) == IF V = {} THEN TRUE ELSE PrintT(<<"VIOL", ToJson([scn |-> scn, k |-> l - base, preds |-> V])>>)
 
 TInit == /\ TLCSet(1, 0)
-         /\ members = {} /\ created = {} /\ live = {} /\ log = <<>> /\ returned = <<>> /\ applied = <<>> /\ lastT = <<>> /\ altBad = <<>> /\ empt = <<>>
+         /\ members = {} /\ created = {} /\ live = {} /\ creating = {} /\ log = <<>> /\ returned = <<>> /\ applied = <<>> /\ lastT = <<>> /\ altBad = <<>> /\ empt = <<>>
          /\ calls = <<>> /\ cctx = {} /\ inflight = <<>> /\ viol = {} /\ scn = 0 /\ base = 1 /\ l = 1
 
 TReset ==
     /\ More /\ E.e = "reset"
-    /\ members' = SetOf(E.mem) /\ created' = {} /\ live' = {} /\ log' = <<>> /\ returned' = <<>> /\ applied' = <<>> /\ lastT' = <<>> /\ altBad' = <<>> /\ empt' = <<>>
+    /\ members' = SetOf(E.mem) /\ created' = {} /\ live' = {} /\ creating' = {} /\ log' = <<>> /\ returned' = <<>> /\ applied' = <<>> /\ lastT' = <<>> /\ altBad' = <<>> /\ empt' = <<>>
     /\ calls' = <<>> /\ cctx' = {} /\ inflight' = <<>> /\ viol' = {} /\ scn' = E.scn /\ base' = l /\ Adv
 
 ---------------------------------------------------------------------------
@@ -80,7 +82,7 @@ TReset ==
 TStim ==
     /\ More /\ E.e = "stim" /\ ~Flying
     /\ inflight' = E.ops /\ Adv
-    /\ UNCHANGED <<members, created, live, log, returned, applied, lastT, altBad, empt, calls, cctx, viol, scn, base>>
+    /\ UNCHANGED <<members, created, live, creating, log, returned, applied, lastT, altBad, empt, calls, cctx, viol, scn, base>>
 
 \* the event loop processes the next subscription option of peer inflight[i].p
 Tell(t, p) ==
@@ -95,7 +97,7 @@ TRaw(i) ==
           ELSE IF ~v /\ p \in members THEN members' = members \ {p} /\ Tell("L", p)
           ELSE UNCHANGED <<members, log, empt>>
     /\ inflight' = [inflight EXCEPT ![i].seq = Tail(@)]
-    /\ UNCHANGED <<created, live, returned, applied, lastT, altBad, calls, cctx, viol, scn, base, l>>
+    /\ UNCHANGED <<created, live, creating, returned, applied, lastT, altBad, calls, cctx, viol, scn, base, l>>
 
 \* the membership derived from the stimuli must be the ground truth (otherwise the scenario is not judged:
 \* the orchestrator reports MODEL-DRIFT); disagreement of the second ground truth (Topic.ListPeers) with the
@@ -107,28 +109,49 @@ TStep ==
            W == (IF SetOf(E.lp) # SetOf(E.mem) THEN {"ListPeersDisagrees"} ELSE {})
                 \cup (IF E.nh # Cardinality(live) THEN {"HandlerCount"} ELSE {}) IN
        viol' = V /\ Flag(V) /\ Info(W)
-    /\ Adv /\ UNCHANGED <<members, created, live, log, returned, applied, lastT, altBad, empt, calls, cctx, inflight, scn, base>>
+    /\ Adv /\ UNCHANGED <<members, created, live, creating, log, returned, applied, lastT, altBad, empt, calls, cctx, inflight, scn, base>>
+
+\* EventHandler(): the log is seeded with the current members and the handler registered - one step as far as the
+\* property can tell (whatever the loop does before it is in the seed, whatever it does after it is notified).
+Create(h) ==
+    /\ created' = created \cup {h} /\ live' = live \cup {h}
+    /\ log' = log @@ (h :> O!Seed(members))
+    /\ returned' = returned @@ (h :> <<>>)
+    /\ applied' = applied @@ (h :> {}) /\ lastT' = lastT @@ (h :> O!NoLog) /\ altBad' = altBad @@ (h :> FALSE)
+    /\ empt' = empt @@ (h :> (members = {}))
+
+\* a call of EventHandler() made while other things are in flight (the driver parks the event loop, submits the
+\* call and a membership change, unparks): it takes effect at some instant between its newhcall and newh lines
+TNewHCall ==
+    /\ More /\ E.e = "newhcall" /\ E.h \notin created /\ E.h \notin creating
+    /\ creating' = creating \cup {E.h}
+    /\ Adv /\ UNCHANGED <<members, created, live, log, returned, applied, lastT, altBad, empt, calls, cctx, inflight, viol, scn, base>>
+
+CCreate(h) ==
+    /\ h \in creating /\ h \notin created
+    /\ Create(h)
+    /\ UNCHANGED <<members, creating, calls, cctx, inflight, viol, scn, base, l>>
 
 TNewH ==
-    /\ More /\ E.e = "newh" /\ E.h \notin created /\ ~Flying
-    /\ created' = created \cup {E.h} /\ live' = live \cup {E.h}
-    /\ log' = log @@ (E.h :> O!Seed(members))       \* seeded inside the event loop: atomic with the registration
-    /\ returned' = returned @@ (E.h :> <<>>)
-    /\ applied' = applied @@ (E.h :> {}) /\ lastT' = lastT @@ (E.h :> O!NoLog) /\ altBad' = altBad @@ (E.h :> FALSE)
-    /\ empt' = empt @@ (E.h :> (members = {}))
+    /\ More /\ E.e = "newh"
+    /\ IF E.h \in creating
+         THEN /\ E.h \in created /\ creating' = creating \ {E.h}
+              /\ UNCHANGED <<created, live, log, returned, applied, lastT, altBad, empt>>
+         ELSE /\ E.h \notin created /\ ~Flying        \* made at a quiescent point: takes effect here
+              /\ Create(E.h) /\ UNCHANGED creating
     /\ Adv /\ UNCHANGED <<members, calls, cctx, inflight, viol, scn, base>>
 
 TCancelH ==
     /\ More /\ E.e = "cancelh" /\ E.h \in live /\ ~Flying
     /\ live' = live \ {E.h}
-    /\ Adv /\ UNCHANGED <<members, created, log, returned, applied, lastT, altBad, empt, calls, cctx, inflight, viol, scn, base>>
+    /\ Adv /\ UNCHANGED <<members, created, creating, log, returned, applied, lastT, altBad, empt, calls, cctx, inflight, viol, scn, base>>
 
 ---------------------------------------------------------------------------
 (* consumers *)
 TCall ==
     /\ More /\ E.e = "call" /\ E.id \notin DOMAIN calls /\ E.h \in created
     /\ calls' = calls @@ (E.id :> [h |-> E.h, ctx |-> E.ctx, mode |-> E.mode, pc |-> "run", k |-> "", p |-> ""])
-    /\ Adv /\ UNCHANGED <<members, created, live, log, returned, applied, lastT, altBad, empt, cctx, inflight, viol, scn, base>>
+    /\ Adv /\ UNCHANGED <<members, created, live, creating, log, returned, applied, lastT, altBad, empt, cctx, inflight, viol, scn, base>>
 
 \* the real handler h handed out event (t, p): history and monitors
 Hand(h, t, p) ==
@@ -147,7 +170,7 @@ CPull(id) ==
          /\ log' = [log EXCEPT ![h] = O!Take(@, p)]
          /\ Hand(h, log[h][p], p)
          /\ calls' = [calls EXCEPT ![id].pc = "lin", ![id].k = log[h][p], ![id].p = p]
-    /\ UNCHANGED <<members, created, live, empt, cctx, inflight, viol, scn, base, l>>
+    /\ UNCHANGED <<members, created, live, creating, empt, cctx, inflight, viol, scn, base, l>>
 
 \* the pull found nothing (or the call was woken for nothing): on to ctx.Done() / the select.
 \* Not conditioned on the model log: if the real log was empty although events are pending in
@@ -156,7 +179,7 @@ CRest(id) ==
     /\ \/ calls[id].pc = "run"
        \/ calls[id].pc = "wait" /\ calls[id].mode = "step"     \* woken for nothing: parks again
     /\ calls' = [calls EXCEPT ![id].pc = Rest(id)]
-    /\ UNCHANGED <<members, created, live, log, returned, applied, lastT, altBad, empt, cctx, inflight, viol, scn, base, l>>
+    /\ UNCHANGED <<members, created, live, creating, log, returned, applied, lastT, altBad, empt, cctx, inflight, viol, scn, base, l>>
 
 \* the call returns the context error.  Allowed whenever its context is cancelled, whatever the model log
 \* holds and whether or not the call has looked at the log yet: the property does not exclude an implementation
@@ -167,17 +190,17 @@ CRest(id) ==
 CCtx(id) ==
     /\ calls[id].pc \in {"run", "wait"} /\ calls[id].ctx \in cctx
     /\ calls' = [calls EXCEPT ![id].pc = "lin", ![id].k = "ctx", ![id].p = ""]
-    /\ UNCHANGED <<members, created, live, log, returned, applied, lastT, altBad, empt, cctx, inflight, viol, scn, base, l>>
+    /\ UNCHANGED <<members, created, live, creating, log, returned, applied, lastT, altBad, empt, cctx, inflight, viol, scn, base, l>>
 
 TGo ==
     /\ More /\ E.e = "go" /\ E.id \in DOMAIN calls /\ calls[E.id].pc = "parked"
     /\ calls' = [calls EXCEPT ![E.id].pc = "wait"]
-    /\ Adv /\ UNCHANGED <<members, created, live, log, returned, applied, lastT, altBad, empt, cctx, inflight, viol, scn, base>>
+    /\ Adv /\ UNCHANGED <<members, created, live, creating, log, returned, applied, lastT, altBad, empt, cctx, inflight, viol, scn, base>>
 
 TCancel ==
     /\ More /\ E.e = "cancel"
     /\ cctx' = cctx \cup {E.ctx}
-    /\ Adv /\ UNCHANGED <<members, created, live, log, returned, applied, lastT, altBad, empt, calls, inflight, viol, scn, base>>
+    /\ Adv /\ UNCHANGED <<members, created, live, creating, log, returned, applied, lastT, altBad, empt, calls, inflight, viol, scn, base>>
 
 Drop(id) == [i \in DOMAIN calls \ {id} |-> calls[i]]
 
@@ -200,7 +223,7 @@ TRet ==
           /\ E.k = "err" \/ (E.k = "ctx" /\ c.ctx \notin cctx)
           /\ viol' = {"P_C18_UnexpectedError"} /\ Flag({"P_C18_UnexpectedError"})
           /\ calls' = Drop(E.id) /\ UNCHANGED <<returned, applied, lastT, altBad, empt>>
-    /\ Adv /\ UNCHANGED <<members, created, live, log, cctx, inflight, scn, base>>
+    /\ Adv /\ UNCHANGED <<members, created, live, creating, log, cctx, inflight, scn, base>>
 
 ---------------------------------------------------------------------------
 (* quiescence: the predicates of C18 on the real observations *)
@@ -209,7 +232,7 @@ Applied(h) == IF Len(returned[h]) <= Short THEN O!Apply(returned[h]) ELSE applie
 AltOK(h) == IF Len(returned[h]) <= Short THEN O!AlternatesAll(returned[h]) ELSE ~altBad[h]
 Literal(h) == Len(returned[h]) <= Short => (O!Apply(returned[h]) = applied[h] /\ O!AlternatesAll(returned[h]) = ~altBad[h])
 TQuiet ==
-    /\ More /\ E.e = "quiet" /\ ~Flying
+    /\ More /\ E.e = "quiet" /\ ~Flying /\ creating = {}
     /\ \A id \in DOMAIN calls : calls[id].pc \in {"wait", "parked"}
     /\ Ids("parked") = SetOf(E.parked) /\ Ids("wait") = SetOf(E.blocked)
     /\ LET truth == SetOf(E.mem)
@@ -227,13 +250,14 @@ TQuiet ==
                 \cup (IF members # truth THEN {"GroundTruth"} ELSE {}) IN
        /\ viol' = V /\ Flag(V)
        /\ empt' = empt2
-    /\ Adv /\ UNCHANGED <<members, created, live, log, returned, applied, lastT, altBad, calls, cctx, inflight, scn, base>>
+    /\ Adv /\ UNCHANGED <<members, created, live, creating, log, returned, applied, lastT, altBad, calls, cctx, inflight, scn, base>>
 
 TEnd ==
     /\ More /\ E.e = "end"
-    /\ Adv /\ UNCHANGED <<members, created, live, log, returned, applied, lastT, altBad, empt, calls, cctx, inflight, viol, scn, base>>
+    /\ Adv /\ UNCHANGED <<members, created, live, creating, log, returned, applied, lastT, altBad, empt, calls, cctx, inflight, viol, scn, base>>
 
 TNext == \/ TReset \/ TStim \/ TStep \/ TNewH \/ TCancelH \/ TCall \/ TGo \/ TCancel \/ TRet \/ TQuiet \/ TEnd
+         \/ TNewHCall \/ (\E h \in creating : CCreate(h))
          \/ \E i \in DOMAIN inflight : TRaw(i)
          \/ \E id \in DOMAIN calls : CPull(id) \/ CRest(id) \/ CCtx(id)
 
